@@ -11,6 +11,7 @@
 From ZV.Common Require Import Base.
 From ZV.C08 Require Import Model ProofsInv ProofsStep ProofsRefute ProofsRun.
 From ZV.C08 Require Import ModelFixedCap ProofsFixedCapRun Cases.
+From ZV.C08 Require Import ModelStats ModelVariants ProofsTagged2.
 Open Scope N_scope.
 
 (* each block is owned by at most one thread at a time, under every interleaving *)
@@ -298,3 +299,141 @@ Check fixedcap_untagged_refuted :
     nth_error (fthr s) 0 = Some l0 /\ nth_error (fthr s) 1 = Some l1 /\
     In b (fholds l0) /\ In b (fholds l1).
 Print Assumptions fixedcap_untagged_refuted.
+
+(* ==========================================================================================
+   More about the tagged stack of lockfree_pool.rs / five_level_pool.rs: generation, the scrub
+   of deallocate_with_zero, the reported counters (ModelStats.v), and the three seeded variants
+   (ModelVariants.v).
+   ========================================================================================== *)
+
+(* the generation of the head never decreases along a run, whatever happens to the list (in particular when a pop
+   empties it), and always equals the number of successful compare-exchanges *)
+Theorem tagged_generation_monotone :
+  forall c, cfg_wf c -> forall n sc1 sc2, ncas (run c (init n c) (sc1 ++ sc2)) < gmod c ->
+  gen (run c (init n c) sc1) <= gen (run c (init n c) (sc1 ++ sc2)) /\
+  gen (run c (init n c) (sc1 ++ sc2)) = ncas (run c (init n c) (sc1 ++ sc2)).
+Proof. intros c [H1 H2]. exact (generation_monotone_proof c H1 H2). Qed.
+Check tagged_generation_monotone :
+  forall c, cfg_wf c -> forall n sc1 sc2, ncas (run c (init n c) (sc1 ++ sc2)) < gmod c ->
+  gen (run c (init n c) sc1) <= gen (run c (init n c) (sc1 ++ sc2)) /\
+  gen (run c (init n c) (sc1 ++ sc2)) = ncas (run c (init n c) (sc1 ++ sc2)).
+Print Assumptions tagged_generation_monotone.
+
+(* the pop of the last block made explicit: a thread about to exchange (h, g) for (LIST_TAIL, g + 1) whose
+   exchange succeeds leaves the head at (LIST_TAIL, g + 1) - an empty list with a non-zero generation *)
+Theorem tagged_pop_last_keeps_generation :
+  forall c, cfg_wf c -> forall n sc t hl h g,
+  let s := run c (init n c) sc in
+  ncas s + 1 < gmod c ->
+  nth_error (thr s) t = Some {| pc := PopRead h g (tail c); held := hl |} ->
+  head s = h -> gen s = g ->
+  let s' := fst (step c s t CNone) in
+  head s' = tail c /\ gen s' = g + 1 /\ 0 < gen s' /\ fl s' = [].
+Proof. intros c [H1 H2]. exact (pop_last_keeps_generation_proof c H1 H2). Qed.
+Check tagged_pop_last_keeps_generation :
+  forall c, cfg_wf c -> forall n sc t hl h g,
+  let s := run c (init n c) sc in
+  ncas s + 1 < gmod c ->
+  nth_error (thr s) t = Some {| pc := PopRead h g (tail c); held := hl |} ->
+  head s = h -> gen s = g ->
+  let s' := fst (step c s t CNone) in
+  head s' = tail c /\ gen s' = g + 1 /\ 0 < gen s' /\ fl s' = [].
+Print Assumptions tagged_pop_last_keeps_generation.
+
+(* deallocate_with_zero: whenever a thread's next step scrubs block b, b is on no free list and in no other
+   thread's hands; the link words of all listed blocks and the traversed free list are the same after the step *)
+Theorem zero_on_free_never_touches_listed_block :
+  forall c, cfg_wf c -> forall n sc, ncas (run c (init n c) sc) < gmod c ->
+  let s := run c (init n c) sc in
+  forall t k b, zero_target s t k = Some b ->
+    exists free, walk (length free) (tail c) (nxt s) (head s) = Some free /\ ~ In b free /\
+      (forall x, In x free -> nxt (fst (step c s t k)) x = nxt s x) /\
+      walk (length free) (tail c) (nxt (fst (step c s t k))) (head (fst (step c s t k))) = Some free /\
+      (forall t' l', t' <> t -> nth_error (thr s) t' = Some l' -> ~ In b (holds l')).
+Proof. intros c [H1 H2]. exact (zero_on_free_proof c H1 H2). Qed.
+Check zero_on_free_never_touches_listed_block :
+  forall c, cfg_wf c -> forall n sc, ncas (run c (init n c) sc) < gmod c ->
+  let s := run c (init n c) sc in
+  forall t k b, zero_target s t k = Some b ->
+    exists free, walk (length free) (tail c) (nxt s) (head s) = Some free /\ ~ In b free /\
+      (forall x, In x free -> nxt (fst (step c s t k)) x = nxt s x) /\
+      walk (length free) (tail c) (nxt (fst (step c s t k))) (head (fst (step c s t k))) = Some free /\
+      (forall t' l', t' <> t -> nth_error (thr s) t' = Some l' -> ~ In b (holds l')).
+Print Assumptions zero_on_free_never_touches_listed_block.
+
+(* the counters both pools report are exact once all threads are done, under every interleaving: count = length
+   of the free list, fragment_size = length x block size (five-level), fast_deallocs = number of free calls = number
+   of successful push exchanges, fast_allocs = number of successful pop exchanges = fast_deallocs - length,
+   cas_successes = their sum, memory_usage = bytes carved (lockfree), blocks handed out = frees + blocks held,
+   and blocks handed out = fast_allocs + blocks carved *)
+Theorem counters_exact_at_quiescence :
+  forall c, cfg_wf c -> forall n sc, ncas (run c (init n c) sc) < gmod c ->
+  let x := xrun c (xinit n c) sc in
+  quiescent (xs x) ->
+  exists free, walk (length free) (tail c) (nxt (xs x)) (head (xs x)) = Some free /\
+    count (xs x) = N.of_nat (length free) mod W32 /\
+    frag (xst x) = (N.of_nat (length free) * bsize c) mod W64 /\
+    fast_deallocs (xst x) = g_frees (xst x) /\
+    fast_deallocs (xst x) = g_npush (xst x) /\ fast_allocs (xst x) = g_npop (xst x) /\
+    fast_deallocs (xst x) = fast_allocs (xst x) + N.of_nat (length free) /\
+    cas_ok (xst x) = fast_allocs (xst x) + fast_deallocs (xst x) /\
+    (lfkind c = true -> mem_usage (xst x) + bump0 c = bump (xs x)) /\
+    g_got (xst x) = g_frees (xst x) + N.of_nat (length (concat (map held (thr (xs x))))) /\
+    bump (xs x) + fast_allocs (xst x) * bsize c = bump0 c + g_got (xst x) * bsize c.
+Proof. intros c [H1 H2]. exact (counters_exact_proof c H1 H2). Qed.
+Check counters_exact_at_quiescence :
+  forall c, cfg_wf c -> forall n sc, ncas (run c (init n c) sc) < gmod c ->
+  let x := xrun c (xinit n c) sc in
+  quiescent (xs x) ->
+  exists free, walk (length free) (tail c) (nxt (xs x)) (head (xs x)) = Some free /\
+    count (xs x) = N.of_nat (length free) mod W32 /\
+    frag (xst x) = (N.of_nat (length free) * bsize c) mod W64 /\
+    fast_deallocs (xst x) = g_frees (xst x) /\
+    fast_deallocs (xst x) = g_npush (xst x) /\ fast_allocs (xst x) = g_npop (xst x) /\
+    fast_deallocs (xst x) = fast_allocs (xst x) + N.of_nat (length free) /\
+    cas_ok (xst x) = fast_allocs (xst x) + fast_deallocs (xst x) /\
+    (lfkind c = true -> mem_usage (xst x) + bump0 c = bump (xs x)) /\
+    g_got (xst x) = g_frees (xst x) + N.of_nat (length (concat (map held (thr (xs x))))) /\
+    bump (xs x) + fast_allocs (xst x) * bsize c = bump0 c + g_got (xst x) * bsize c.
+Print Assumptions counters_exact_at_quiescence.
+
+(* variant: a pop that empties the bin stores generation 0 - two threads end up owning block 72 although the
+   generation is far from wrapping *)
+Theorem generation_reset_refuted :
+  exists sc b l0 l1,
+    let s := vrun VResetGen reset_cfg (init 2 reset_cfg) sc in
+    ncas s < gmod reset_cfg /\
+    nth_error (thr s) 0 = Some l0 /\ nth_error (thr s) 1 = Some l1 /\
+    In b (holds l0) /\ In b (holds l1).
+Proof. exact generation_reset_refuted_proof. Qed.
+Check generation_reset_refuted :
+  exists sc b l0 l1,
+    let s := vrun VResetGen reset_cfg (init 2 reset_cfg) sc in
+    ncas s < gmod reset_cfg /\
+    nth_error (thr s) 0 = Some l0 /\ nth_error (thr s) 1 = Some l1 /\
+    In b (holds l0) /\ In b (holds l1).
+Print Assumptions generation_reset_refuted.
+
+(* variant: free counts the block before the compare-exchange, inside the retry loop - after one lost race the
+   bin reports 3 blocks for a list of 2 *)
+Theorem count_before_cas_refuted :
+  exists sc, let s := vrun VCountEarly early_cfg (init 2 early_cfg) sc in
+    all_idle s = true /\ walk 8 (tail early_cfg) (nxt s) (head s) = Some [0; 64] /\ count s = 3.
+Proof. exact count_before_cas_refuted_proof. Qed.
+Check count_before_cas_refuted :
+  exists sc, let s := vrun VCountEarly early_cfg (init 2 early_cfg) sc in
+    all_idle s = true /\ walk 8 (tail early_cfg) (nxt s) (head s) = Some [0; 64] /\ count s = 3.
+Print Assumptions count_before_cas_refuted.
+
+(* variant: deallocate_with_zero pushes first and scrubs afterwards - block 8 is carved, in nobody's hands and
+   no longer on the list *)
+Theorem zero_after_push_refuted :
+  exists sc, let s := vrun VZeroLate zlate_cfg (init 1 zlate_cfg) sc in
+    all_idle s = true /\ 8 < bump s /\
+    walk 8 (tail zlate_cfg) (nxt s) (head s) = Some [72] /\ all_holds s = [].
+Proof. exact zero_after_push_refuted_proof. Qed.
+Check zero_after_push_refuted :
+  exists sc, let s := vrun VZeroLate zlate_cfg (init 1 zlate_cfg) sc in
+    all_idle s = true /\ 8 < bump s /\
+    walk 8 (tail zlate_cfg) (nxt s) (head s) = Some [72] /\ all_holds s = [].
+Print Assumptions zero_after_push_refuted.
